@@ -1392,8 +1392,16 @@ class FileSet:
                 file_iterator, key=lambda x: (x.times[0], x.times[1])
             )
 
+        if only_path:
+            # The user wants the paths only:
+            def output(files):
+                return [file.path for file in files]
+        else:
+            def output(files):
+                return files
+
         if bundle_size is None:
-            yield from file_iterator
+            yield from output(file_iterator)
             return
 
         # The argument bundle was defined. Either it sets the bundle size
@@ -1402,7 +1410,7 @@ class FileSet:
             files = list(file_iterator)
 
             yield from (
-                files[i:i + bundle_size]
+                output(files[i:i + bundle_size])
                 for i in range(0, len(files), bundle_size)
             )
         elif isinstance(bundle_size, str):
@@ -1417,7 +1425,7 @@ class FileSet:
                 [file.times[0] for file in files]
             )
             yield from (
-                bundle[1].values.tolist()
+                output(bundle[1].values.tolist())
                 for bundle in time_series.groupby(
                     pd.Grouper(freq=bundle_size))
                 if bundle[1].any()
